@@ -52,7 +52,7 @@ def _gen(rng, depth, leaves, allow_concat=True):
 
 
 def gen_cases(run):
-    n = run.n(4000, 960000)
+    n = run.n(16000, 960000)
     for i in range(n):
         leaves = []
         depth = run.rng.choice([1, 2, 3, 3, 4, 5, 6])
